@@ -620,6 +620,20 @@ class Exec:
                 return SSet(z3.Lambda([q], z3.And(a.arr[q], b.arr[q])))
             if isinstance(op, ast.BitOr):
                 return SSet(z3.Lambda([q], z3.Or(a.arr[q], b.arr[q])))
+        if isinstance(a, View) and a.kind == 'keys' and isinstance(a.d, dict):
+            a = list(a.d)
+        if isinstance(b, View) and b.kind == 'keys' and isinstance(b.d, dict):
+            b = list(b.d)
+        if isinstance(a, (list, set, frozenset)) and isinstance(b, (list, set, frozenset)) and isinstance(op, (ast.BitAnd, ast.Sub, ast.BitOr)) \
+                and not all(_hashable_concrete(x) for x in list(a) + list(b)):
+            # set algebra on collections with symbolic members: membership decided by (forking) equality; the result is a list of pairwise different members
+            la, lb = list(a), list(b)
+            inb = lambda x: any(self.truth(self.eq(x, y)) for y in lb)
+            if isinstance(op, ast.BitAnd):
+                return [x for x in la if inb(x)]
+            if isinstance(op, ast.Sub):
+                return [x for x in la if not inb(x)]
+            return la + [y for y in lb if not any(self.truth(self.eq(y, x)) for x in la)]
         if isinstance(a, (set, frozenset)) and isinstance(b, (set, frozenset)) and all(_hashable_concrete(x) for x in list(a) + list(b)):
             return {ast.Sub: a - b, ast.BitAnd: a & b, ast.BitOr: a | b, ast.BitXor: a ^ b}[type(op)]
         if isinstance(op, ast.Add) and isinstance(a, (list, tuple)) and isinstance(b, (list, tuple)):
@@ -1297,6 +1311,19 @@ class Exec:
             self.stmt(s, env)
 
     def stmt(self, s, env):
+        # region summaries: a contract may replace the statements between two anchor statements by its own summary (stated in the contract's assumptions)
+        if getattr(self, 'skip_until', None) is not None:
+            if not isinstance(s, (ast.If, ast.While, ast.For, ast.Try, ast.With, ast.FunctionDef)) and ast.unparse(s) == self.skip_until:
+                self.skip_until = None
+            else:
+                return
+        elif getattr(self, 'region_hooks', None) and isinstance(s, (ast.Assign, ast.Expr)):
+            k = ast.unparse(s)
+            if k in self.region_hooks:
+                cb, until = self.region_hooks[k]
+                self.region_hits = getattr(self, 'region_hits', 0) + 1
+                cb(self, env, s)
+                self.skip_until = until
         m = getattr(self, 's_' + type(s).__name__, None)
         if m is None:
             raise Unsupported('statement ' + ast.dump(s)[:160])
